@@ -145,9 +145,8 @@ def image_file(level, data, header=None, line=None, raw_lines=None):
     rec = signal_data.signal_data_record if level == "1.1" else processed_data.processed_data_record
     for i in range(n):
         v = {"preamble": preamble(i + 2, 50, 10 if level == "1.1" else 11, 18, 20, rs), "sar_image_data_line_number": i + 1,
-             # line times are NOT increasing (descending, the last line again later): offsets relative to the first line have both signs
-             "sensor_acquisition_date": {"year": 2020, "day_of_year": 60, "milliseconds": 1000 * ((n - i) if i < n - 1 else 2 * n)},
-             "sar_channel_id": 1, "sensor_acquisition_date_microseconds": 1000000 * ((n - i) if i < n - 1 else 2 * n) + 7}
+             "sensor_acquisition_date": {"year": 2020, "day_of_year": 60, "milliseconds": 1000 * i},
+             "sar_channel_id": 1, "sensor_acquisition_date_microseconds": 1000000 * i}
         v.update((line(i) if callable(line) else line) or {})
         b, _ = build(rec, v, {})
         assert len(b) == hl, (len(b), hl)
@@ -252,10 +251,11 @@ def summary_lines(files, p, n, pid, scene=SCENE):
 
 
 def product(write, level="1.5", n=5, p=7, pols=("HH", "HV"), scans=(None,), rng=None, datas=None, image_kw=None, leader_kw=None,
-            volume_kw=None, pid=None, summary_edit=None):
+            volume_kw=None, pid=None, summary_edit=None, scene=None):
     """write(name, bytes) stores one file; returns {image file name: sample matrix}"""
     rng = rng or np.random.default_rng(0)
     pid = pid or PID[level]
+    SCENE = scene or globals()["SCENE"]
     files = [f"VOL-{SCENE}-{pid}", f"LED-{SCENE}-{pid}"]
     out = {}
     for pol in pols:
@@ -274,7 +274,7 @@ def product(write, level="1.5", n=5, p=7, pols=("HH", "HV"), scans=(None,), rng=
     write(files[0], volume(**(volume_kw or {})))
     write(files[1], leader(**(leader_kw or {})))
     write(files[-1], b"")
-    lines = summary_lines(files, p, n, pid)
+    lines = summary_lines(files, p, n, pid, scene=SCENE)
     if summary_edit:
         lines = summary_edit(lines)
     write("summary.txt", ("\n".join(lines) + "\n").encode())
